@@ -145,6 +145,16 @@ func liv(xs ...int64) celVal {
 	}
 	return celVal{GoLit: "[]int{" + strings.Join(q, ", ") + "}", Cel: xs, Show: "[" + strings.Join(q, ",") + "]"}
 }
+func lbv(xs ...bool) celVal {
+	var q []string
+	for _, x := range xs {
+		q = append(q, fmt.Sprint(x))
+	}
+	if xs == nil {
+		xs = []bool{}
+	}
+	return celVal{GoLit: "[]bool{" + strings.Join(q, ", ") + "}", Cel: xs, Show: "[" + strings.Join(q, ",") + "]"}
+}
 func mv(kv ...any) celVal {
 	m := map[string]int64{}
 	var q, sh []string
@@ -205,7 +215,7 @@ func valuesFor(t string) []celVal {
 		return []celVal{fv(0), fv(math.Copysign(0, -1)), fv(0.5), fv(1), fv(-1), fv(1.5), fv(2), fv(100), fv(100.5), fv(-0.25), fv(1e300), fv(-1e300), fv(math.Inf(1)), fv(math.Inf(-1)), fv(math.NaN()), fv(5e-324),
 			fv(16777217), fv(16777216), fv(0.123456789), fv(float64(float32(0.123456789))), fv(1234567.89), fv(float64(float32(1234567.89))), fv(0.1), fv(float64(float32(0.1)))}
 	case "string":
-		return []celVal{sv(""), sv("a"), sv("abc"), sv("prefix_x"), sv("x.com"), sv("a@b"), sv("héllo"), sv("日本語"), sv("Abc"), sv("active"), sv("12"), sv("-3"), sv("12abc"), sv("\xff\xfe"), sv("a b c d e f"), sv("pending"), sv("a  b"), sv("a b"), sv("x\ty"), sv("x y")}
+		return []celVal{sv(""), sv("a"), sv("abc"), sv("prefix_x"), sv("x.com"), sv("a@b"), sv("héllo"), sv("日本語"), sv("Abc"), sv("active"), sv("12"), sv("-3"), sv("12abc"), sv("\xff\xfe"), sv("a b c d e f"), sv("pending"), sv("a  b"), sv("a b"), sv("x\ty"), sv("x y"), sv("true"), sv("false")}
 	case "bool":
 		return []celVal{bv(true), bv(false)}
 	case "[]string":
@@ -229,6 +239,8 @@ func valuesFor(t string) []celVal {
 		return []celVal{mk([]int64{1, 2}, []int64{3, 4}, []int64{5, 6}), mk(), mk([]int64{}), mk([]int64{1}, []int64{-1, 7}), mk([]int64{1, 2, 3}, []int64{4, 5, 6}, []int64{0, 7, 8}, []int64{9})}
 	case "[]int":
 		return []celVal{{GoLit: "[]int(nil)", Cel: []int64{}, Show: "nil"}, liv(), liv(1), liv(1, 2, 3), liv(0, -1), liv(5, 5), liv(10, 20, 30, 40), liv(-1, 5, -3, 7), liv(200, -1, 50)}
+	case "[]bool":
+		return []celVal{{GoLit: "[]bool(nil)", Cel: []bool{}, Show: "nil"}, lbv(), lbv(true), lbv(false), lbv(true, false), lbv(false, true), lbv(true, true, true), lbv(false, false, true, false)}
 	case "map[string]int":
 		return []celVal{{GoLit: "map[string]int(nil)", Cel: map[string]int64{}, Show: "nil"}, mv(), mv("a", 1), mv("a", 1, "b", 2), mv("k", 0), mv("admin", 5, "x", -1), mv("1", 1, "2", 2, "3", 3)}
 	case "Span":
@@ -500,6 +512,29 @@ func (g *celGen) atom(depth int) string {
 			g.feat("filter")
 			return "size(value.filter(x, x > " + g.pick("0", "2", "10") + ")) " + g.cmp() + " " + g.pick("0", "1", "2")
 		}
+	case t == "[]bool":
+		// elements are booleans: an index expression stands in BOOLEAN position, where an untranslated node
+		// (the literal `true`) still compiles
+		switch g.rng.Intn(6) {
+		case 0:
+			g.feat("size")
+			return "size(value) " + g.cmp() + " " + g.pick("0", "1", "3")
+		case 1:
+			g.feat("index-bool")
+			return "size(value) > 0 && value[0]"
+		case 2:
+			g.feat("index-bool")
+			return "value[" + g.pick("0", "1", "size(value) - 1", "this.X", "this.Y") + "]"
+		case 3:
+			g.feat("all")
+			return "value.all(b, " + g.pick("b", "!b", "b == this.B") + ")"
+		case 4:
+			g.feat("exists")
+			return "value.exists(b, " + g.pick("b", "!b") + ")"
+		default:
+			g.feat("in-field")
+			return g.pick("true", "false", "this.B") + " in value"
+		}
 	case t == "map[string]int":
 		switch g.rng.Intn(5) {
 		case 0, 1:
@@ -558,7 +593,7 @@ type celCase struct {
 	Extra  string // extra marker lines written before the cel marker
 }
 
-var celFieldTypes = []string{"int", "int64", "int8", "int16", "int32", "uint", "uint8", "uint32", "uint64", "float64", "string", "bool", "[]string", "[]int", "map[string]int", "time.Duration"}
+var celFieldTypes = []string{"int", "int64", "int8", "int16", "int32", "uint", "uint8", "uint32", "uint64", "float64", "string", "bool", "[]string", "[]int", "[]bool", "map[string]int", "time.Duration"}
 
 // celCorpus: fixed expressions — the golden fixture of the repository, and one representative of every
 // construct (run first; known deviations are listed in known_findings.json by exact (type, expression))
@@ -597,6 +632,11 @@ func celCorpus() []celCase {
 		{"[]string", "value.filter(s, s != '').exists(u, u == 'a')"}, {"[]string", "value.filter(s, s.startsWith('prefix')).all(u, size(u) > 6)"}, {"[]int", "size(value.filter(x, x > 0).map(y, y * 2)) == 2"}, {"int", "18 <= value"}, {"int", "0 < value"}, {"int", "100 > value"}, {"float64", "0.5 < value"}, {"string", "'abc' <= value"}, {"uint8", "5u >= value"}, {"float64", "value == 0.1"}, {"float64", "value < 0.123456789"}, {"int", "has(this.X)"}, {"string", "value == \"it's\""}, {"string", "value == 'say \"hi\"'"},
 		{"string", "value.size() > 2"}, {"[]string", "value.size() > 1"}, {"[]string", "value[0] == 'a'"}, {"time.Duration", "value < duration('30m')"},
 		{"string", "value.trim() == 'a'"}, {"int", "math.abs(value) > 1"}, {"int", "value ?: 1"},
+		// constructs of the standard library without a translation, in BOOLEAN position (an untranslated node rendered as
+		// the literal `true` would still compile there)
+		{"[]bool", "value[0]"}, {"[]bool", "value[0] || size(value) == 0"}, {"[]bool", "size(value) > 1 && !value[1]"}, {"[]bool", "value[size(value) - 1]"},
+		{"[]bool", "value[this.X]"}, {"[]bool", "value[this.Y]"}, {"string", "bool(value)"}, {"string", "!bool(value)"}, {"[]bool", "value.all(b, b)"}, {"[]bool", "true in value"},
+		{"string", "value.matches('^a') || bool(value)"}, {"map[string]int", "has(value.a)"}, {"int", "has(this.X) && value > 0"},
 	}
 	var out []celCase
 	for i, r := range raw {
